@@ -268,6 +268,12 @@ class TrioEventLoop(EventLoop):
         we cannot simply use a try..catch clause, we need a helper function like this.
         """
         self._idle_callbacks.clear()
+        if isinstance(exc, BaseExceptionGroup):
+            # several callbacks may have raised in the same scheduler tick: ExitMainLoop never propagates
+            _exits, others = exc.split(ExitMainLoop)
+            if others is None:
+                return
+            exc = others
         if isinstance(exc, BaseExceptionGroup) and len(exc.exceptions) == 1:
             exc = exc.exceptions[0]
 
